@@ -816,6 +816,12 @@ class Engine:
         if self.catch is not None and exc in self.catch['types']:
             self.catch['conds'].append(goal if not path.guards else Implies(And(*path.guards), goal))
             return
+        if self.c.view_of and kind in ('noraise', 'call-pre', 'frame', 'decreases') and not any(h in site for h in self.heap_callees):
+            # discharged among the main view's obligations (same code, same preconditions): assumed here
+            if kind in ('noraise', 'call-pre'):
+                path.assume(goal)
+            self.assumptions_used.add('obligations of kind noraise / call-pre / frame are those of the main view %s' % self.c.view_of.split(':')[1])
+            return
         g = goal
         if exc is not None and exc in self.c.raises and self.pre_env is not None:
             cond = self.spec_bool(self.c.raises[exc], dict(self.pre_env), path)
@@ -1384,6 +1390,9 @@ class Engine:
             return V(('set', T_NAME), ufun('hier_names', z3.IntSort(), S.sort_of(('set', T_NAME)))(E(0).t))
         if name == 'sub_depth':
             return S.vint(ufun('sub_depth', z3.IntSort(), z3.IntSort())(E(0).t))
+        if name == 'chain_root':
+            # the outermost sub-graph a sub-graph is nested in (sub-graphs of different top-level regions are different trees)
+            return S.vint(ufun('chain_root', z3.IntSort(), z3.IntSort())(E(0).t))
         if name == 'graph_at_entry':
             if self.pre_env is None or self.pre_env.get('$heap') is None:
                 raise Unsupported('graph_at_entry outside heap mode')
@@ -1392,6 +1401,17 @@ class Engine:
         if name == 'same_value':
             # equality of two values as SMT terms (implies ==; lets congruence identify function applications over them)
             return S.vbool(E(0).t == E(1).t)
+        if name == 'graph_before':
+            # the sub-graph's block dictionary at the start of the current while iteration
+            ns_ = path.env.get('it0')
+            if not isinstance(ns_, Namespace) or ns_.env.get('$heap') is None:
+                raise Unsupported('graph_before outside a while loop in heap mode')
+            return V(('dict', T_NAME, T_BLOCK), Select(ns_.env['$heap'].t, E(0).t))
+        if name == 'same_graph':
+            # the sub-graph's block dictionary is the one of the entry heap, as an SMT term (what a heap write leaves alone
+            # is term-equal, so everything computed from it is congruent)
+            h0 = path.env.get('$heap0') or self.pre_env['$heap']
+            return S.vbool(Select(path.env['$heap'].t, E(0).t) == Select(h0.t, E(0).t))
         if name == 'graph_now':
             return V(('dict', T_NAME, T_BLOCK), Select(path.env['$heap'].t, E(0).t))
         if name == 'heap_unchanged':
@@ -1403,9 +1423,11 @@ class Engine:
             g = V(('dict', T_NAME, T_BLOCK), Select(h.t, sq))
             b = S.dict_get(g, kq)
             dep = ufun('sub_depth', z3.IntSort(), z3.IntSort())
+            root = ufun('chain_root', z3.IntSort(), z3.IntSort())
             cs = SRC.block_classes()
             isreg = S.block_field(b, 'cls').t == cs['RegionBlock']['id']
-            return S.vbool(S.forall_p([sq, kq], Implies(And(S.dict_has(g, kq), isreg), dep(S.block_field(b, 'subregion').t) > dep(sq)),
+            bs = S.block_field(b, 'subregion').t
+            return S.vbool(S.forall_p([sq, kq], Implies(And(S.dict_has(g, kq), isreg), And(dep(bs) > dep(sq), root(bs) == root(sq))),
                                       [Select(S.dict_val(g), kq)]))
         if name == 'fwd_rank':
             # fwd_rank(seq, be, p): number of entries of seq[:p] that are not in be (uninterpreted, with its recurrence)
@@ -2299,6 +2321,21 @@ class Engine:
         m = getattr(self, 'st_' + type(st).__name__, None)
         if m is None:
             raise Unsupported('statement ' + type(st).__name__)
+        if self.c.view_of and REGISTRY[self.c.view_of].cuts:
+            src = ast.unparse(st)
+            for key, clauses in REGISTRY[self.c.view_of].cuts.items():
+                if key.startswith('end:'):
+                    continue
+                base, _, ordn = key.partition('#')
+                if src.startswith(base):
+                    if ordn:
+                        same = [id(n) for n in ast.walk(self.fn) if isinstance(n, ast.stmt) and ast.unparse(n).startswith(base)]
+                        if same.index(id(st)) != int(ordn):
+                            continue
+                    env = dict(path.env, old=self.old_ns)
+                    for cn, text in clauses.items():
+                        f = path.assume(self.spec_formula(ast.parse(text, mode='eval').body, env, path))
+                        self.labels[f.get_id()] = 'main:' + cn
         if self.c.cuts:
             src = ast.unparse(st)
             for key, clauses in self.c.cuts.items():
@@ -2729,15 +2766,26 @@ class Engine:
         return k
 
     def loop_spec(self, st):
+        k, spec = self._loop_spec(st, self.c)
+        if self.c.view_of:
+            _, main = self._loop_spec(st, REGISTRY[self.c.view_of])
+            if main.inv:
+                import dataclasses as _dc
+                spec = _dc.replace(spec, inherited=dict(main.inv), inherited_frame=list(main.frame),
+                                   index=main.index if spec.index == '_i' else spec.index, done=main.done if spec.done == '_done' else spec.done)
+        return k, spec
+
+    def _loop_spec(self, st, c):
         k = self.loop_key(st)
         ordinal = self.loop_ordinals.get(id(st))
         if ordinal and ordinal > 0:
             k2 = '%s#%d' % (k, ordinal)
-            if k2 in self.c.loops:
-                return k2, self.c.loops[k2]
-        if k in self.c.loops:
-            self.bound_loops.add(k)
-            return k, self.c.loops[k]
+            if k2 in c.loops:
+                return k2, c.loops[k2]
+        if k in c.loops:
+            if c is self.c:
+                self.bound_loops.add(k)
+            return k, c.loops[k]
         return k, LoopSpec()
 
     def check_inv(self, spec, key, env, path, phase):
@@ -2746,6 +2794,14 @@ class Engine:
             self.add_obligation(path, phase, '%s:%s' % (key, cn), g)
 
     def assume_inv(self, spec, env, path):
+        for cn, text in spec.inherited.items():
+            # invariant of the main view of this function (discharged among the main view's obligations)
+            self.intensional_eq = cn in spec.inherited_frame
+            try:
+                f = path.assume(self.spec_formula(ast.parse(text, mode='eval').body, env, path))
+            finally:
+                self.intensional_eq = False
+            self.labels[f.get_id()] = 'main:' + cn
         for cn, text in spec.inv.items():
             self.intensional_eq = cn in spec.frame
             try:
@@ -3035,6 +3091,12 @@ class Engine:
                 self.loop_ordinals[id(n)] = seen.get(k, 0)
                 seen[k] = seen.get(k, 0) + 1
         self.bound_loops = set()
+        self.heap_callees = [q.split(':')[1].split('.')[-1] for q, c_ in REGISTRY.items() if c_.heap and '#' not in q]
+        if c.view_of:
+            main = REGISTRY[c.view_of]
+            missing = [k_ for k_, t_ in main.requires.items() if c.requires.get(k_) != t_]
+            if missing or dict(main.known) != dict(c.known) or list(main.params) != list(c.params):
+                raise Unsupported('view %s does not repeat the preconditions of %s: %s' % (c.qual, c.view_of, missing))
         self.prefix_of = {}
         # locals on which a mutating method is called somewhere in the function (alias model, see record_alias)
         self.mutated_locals = {n.func.value.id for n in ast.walk(self.fn) if isinstance(n, ast.Call) and isinstance(n.func, ast.Attribute)
